@@ -123,6 +123,10 @@ _RO = [f for f in gen_valid.required_order_forms(random.Random(7))
        if not f[0].startswith(("argument-optional-", "list-default-"))]
 _W += [gen_valid.render({"defs": defs}, "plain") for _n, defs in _RO]
 
+# seeded C05-i: introspection meta fields at the query root and below it (gen_valid.meta_field_forms)
+_MF = gen_valid.meta_field_forms(random.Random(7))
+_W += [gen_valid.render({"defs": defs}, "plain") for _n, _ok, defs in _MF]
+
 _NL = [
     # 5e820aa: a nested conflict reported on a document without locations (sorted by loc raised TypeError)
     ("{ a { z { k: x } } a { z { k: y } } }", None),
@@ -196,6 +200,12 @@ def corpus():
                  "query ($s: Boolean = true) { anchor(req: 1, inn: {v: 1}, lnn: [1]) { id self @include(if: $s) { id } } }"):
         out.append({"kind": "shape", "sdl": WITNESS_SDL, "text": text, "opname": None, "vars": {"s": None}, "world": 0,
                     "origin": "witness"})
+    # seeded C05-i: every meta-field form is executed when the implementation accepts it
+    for _n, _ok, defs in _MF:
+        if _n.endswith("typename") and _n not in ("root-typename", "below-typename"):
+            continue
+        out.append({"kind": "shape", "sdl": WITNESS_SDL, "text": gen_valid.render({"defs": defs}, "plain"), "opname": "ZM",
+                    "vars": {}, "world": 0, "origin": "witness"})
     for world in (0, 1, 2):
         out.append({"kind": "shape", "sdl": WITNESS_SDL, "text": _MERGE, "opname": None, "vars": {}, "world": world,
                     "origin": "witness"})
@@ -232,8 +242,8 @@ def generate(rng, tier):
     quick = tier == "quick"
     vc.ALT_RULES_ALL = not quick
     n_schemas = 5 if quick else 16
-    n_valid = 18 if quick else 40
-    n_mut = 14 if quick else 40
+    n_valid = 16 if quick else 40
+    n_mut = 11 if quick else 40
     cases = []
     for si in range(n_schemas):
         sdl = gen_valid.gen_schema(rng)
@@ -262,6 +272,9 @@ def generate(rng, tier):
                     t = gen_valid.violate(rng, schema, rng.choice(valid), label)
                     if t is not None:
                         cases.append(_case(sdl, t, "violator", label))
+                        if label == 9:
+                            # executed when the implementation accepts it (a meta field below the root)
+                            cases.extend(_exec_cases(rng, schema, sdl, t, "violator")[:1])
                         if label == 24:
                             # executed (when the implementation accepts it) per operation with
                             # values each declaration accepts, null where nullable
